@@ -152,8 +152,8 @@ func (sc *SC) armElemQueryHooks(arm string, ea *elemAtoms, install func(q *pa.Qu
 func runC08(c *Ctx) {
 	R := c.R
 	R.Rule("C08.R1", "skip flag guards every content write: at every tag, text, raw and comment write the current value of the skip flag is false on every path (space writes are exempt: a space is neither text nor markup of the input)")
-	R.Rule("C08.R2", "flag/counter pairing: the only joint assignments of (skip flag, skip depth) are: loop entry (false,0); StartTag arm (true, depth+1) on an edge whose path condition implies the element is in the skip set and admitted by no element table; EndTag arm (false, depth-1) under skip-set ∧ not admitted ∧ patterns exhausted ∧ depth-1==0; EndTag arm (unchanged, depth-1) under skip-set ∧ not admitted. Any other assignment of either variable is a violation")
-	R.Rule("C08.R2c", "completeness: every StartTag path on which the element is in the skip set, admitted by no element table and past the script/style gate leaves the arm with the skip flag set")
+	R.Rule("C08.R2", "flag/counter pairing: the only joint assignments of (skip flag, skip depth) are: loop entry (false,0); StartTag arm, or SelfClosingTag arm for a non-void element, (true, depth+1) on an edge whose path condition implies the element is in the skip set and admitted by no element table; EndTag arm (false, depth-1) under skip-set ∧ not admitted ∧ patterns exhausted ∧ depth-1==0; EndTag arm (unchanged, depth-1) under skip-set ∧ not admitted. Any other assignment of either variable is a violation")
+	R.Rule("C08.R2c", "completeness: every StartTag path — and every SelfClosingTag path for a non-void element, whose slash browsers and the tokenizer ignore — on which the element is in the skip set, admitted by no element table and past the script/style gate leaves the arm with the skip flag set")
 	R.Rule("C08.R4", "increments are matchable: the (true, depth+1) site is reached only for elements that can have an end tag (not under a void-element test)")
 	R.Rule("C08.R5", "the skip set is edited only by builder methods (SkipElementsContent / AllowElementsContent / defaults)")
 	R.Assume(TrustGo, TrustTokenizer, "the end-to-end marker statement over all nestings depends on the counter's run-time value; only its transitions and guards are decided here")
@@ -284,7 +284,9 @@ func runC08(c *Ctx) {
 			R.Fail("C08.R2", key, cons, pos, "assignment outside the pairing table (flag and depth must change together: (true,+1), (false,-1 when it reaches 0), (unchanged,-1))")
 			continue
 		}
-		if arm != wantArm {
+		// an element is opened by a start tag, or by a self-closing tag of a non-void element (whose "/" is ignored);
+		// the condition checked below — skip set ∧ not admitted (∧ non-void, R4) — is the same in both arms
+		if arm != wantArm && !(wantArm == "StartTag" && arm == "SelfClosingTag") {
 			R.Fail("C08.R2", key, cons, pos, "this transition belongs in the "+wantArm+" arm")
 			continue
 		}
@@ -315,11 +317,17 @@ func runC08(c *Ctx) {
 	R.Role("C08.R2", "depth-1 sites", nDec, 1)
 	R.Role("C08.R2", "skip-set lookups on token.Data", len(ea.K), 1)
 
-	// R2c
-	if as := getArm("StartTag"); as != nil {
+	// R2c — for start tags and for self-closing tags alike: the "/" of a self-closing tag is ignored on non-void HTML
+	// elements (the tokenizer even switches to raw-text mode after <script/>, <title/>, <iframe/> …), so what follows is
+	// the element's content
+	for _, arm := range []string{"StartTag", "SelfClosingTag"} {
+		as := getArm(arm)
+		if as == nil {
+			continue
+		}
 		n := 0
 		for i, pred := range sc.S.Header.Preds {
-			if sc.S.ArmOf(pred) != "StartTag" {
+			if sc.S.ArmOf(pred) != arm {
 				continue
 			}
 			n++
@@ -335,9 +343,13 @@ func runC08(c *Ctx) {
 			}
 			goal := pa.Implies(pa.And(K, as.disallowed, as.gatepass, pa.Not(voidF)), A.Cond(lv.Skip.Edges[i]))
 			ok, cex := as.q.Holds(es, goal)
-			R.Check(ok, "C08.R2c", "backedge:"+blockRole(sc, pred), "(*Policy).sanitize: StartTag back edge ("+blockRole(sc, pred)+")", c.P.Pos(lastPos(pred)), "a disallowed skip-content element leaves the arm with the flag set", "a disallowed skip-content start tag can leave the arm without setting the skip flag: ["+cex+"]")
+			what := "start tag"
+			if arm == "SelfClosingTag" {
+				what = "self-closing tag of a non-void element"
+			}
+			R.Check(ok, "C08.R2c", "backedge:"+arm+":"+blockRole(sc, pred), "(*Policy).sanitize: "+arm+" back edge ("+blockRole(sc, pred)+")", c.P.Pos(lastPos(pred)), "a disallowed skip-content element leaves the arm with the flag set", "a disallowed skip-content "+what+" can leave the arm without setting the skip flag (its content is then emitted): ["+cex+"]")
 		}
-		R.Role("C08.R2c", "StartTag back edges", n, 3)
+		R.Role("C08.R2c", arm+" back edges", n, 2)
 	}
 
 	// R5
